@@ -29,7 +29,7 @@ pub fn run(rep: &mut Report, thorough: bool) {
     crate::util::install_quiet_panic_hook();
     rep.rule = "targets of 1..24 sentinel threads on zero-filled stacks, each a {pointer holder at the first / last / a random aligned slot above sp with value in {start-1,start,mid,end-1,end,end+1}, misaligned holder, holder below sp, thread spinning inside the principal mapping, nothing}; principal address in {anonymous r-x mapping, file-backed ELF group, hole, inaccessible reservation directly behind the ELF group, 0, MAX}; with and without crash context. Oracle: included <=> ip in [start,end) or an aligned word at/above sp in the checker-read stack in [start,end); records and contexts always present; soft error when required. distinct = hash(holders, principal choice, ctx); non-trivial = Ok dump with >= 1 sentinel judged".into();
     let mut rng = Rng::new(rep.seed.wrapping_mul(202_021));
-    let ntargets = if thorough { 200 } else { 14 };
+    let ntargets = if thorough { 4000 } else { 14 };
     for ti in 0..ntargets {
         let mut b = Builder::new();
         b.spec.dir = crate::target::new_dir("c20");
